@@ -58,8 +58,13 @@ def generate(seed, stratum, tier):
   else:
     pool, w = ['append', 'appendleft'], [1, 1]
   ops = [rng.choices(pool, weights=w)[0] for _ in range(n)]
-  return {'target': stratum, 'cap': cap, 'ops': ops, 'consumer_only': consumer_only,
-          'sched': {'gran': 'line', 'policy': 'sticky', 's': 1.0}}
+  sc = {'target': stratum, 'cap': cap, 'ops': ops, 'consumer_only': consumer_only,
+        'sched': {'gran': 'line', 'policy': 'sticky', 's': 1.0}}
+  if stratum == 'active-object' and rng.random() < 0.35:
+    # the object is an instance of a subclass that declares its own QUEUE_SIZE (as subclasses of queued charts do);
+    # whatever capacity the pending-event queue ends up with, it is judged against that capacity
+    sc['class_cap'] = rng.choice([k for k in (2, 3, 4, 5, 6, 8) if k != cap])
+  return sc
 
 
 def shrink_candidates(sc):
@@ -204,6 +209,7 @@ def execute(sc, sched):
   log = []
   state = {'i': -1, 'op': None}
   boundary = set()
+  capbox = [cap]      # the capacity the queue under test really has
 
   def client():
     if target == 'locking-deque':
@@ -211,8 +217,13 @@ def execute(sc, sched):
       dq, tokens = q.deque, q.locking_queue
       post_back, post_front = q.append, q.appendleft
     elif target == 'active-object':
-      a = ao.ActiveObject(name='a')
+      if sc.get('class_cap'):
+        a = type('SizedActiveObject', (ao.ActiveObject,), {'QUEUE_SIZE': sc['class_cap']})(name='a')
+      else:
+        a = ao.ActiveObject(name='a')
       q = a.locking_deque
+      if q.deque.maxlen is not None:
+        capbox[0] = q.deque.maxlen
       dq, tokens = q.deque, q.locking_queue
       post_back, post_front = a.post_fifo, a.post_lifo
     else:
@@ -230,7 +241,7 @@ def execute(sc, sched):
         if op in ('append', 'appendleft'):
           counter += 1
           item = ev.Event(signal='X', payload='p%d' % counter) if target != 'locking-deque' else 'p%d' % counter
-          if len(before) >= cap:
+          if len(before) >= capbox[0]:
             boundary.add((op, 'full'))
             sim.probe('post_on_full')
             if op == 'appendleft':
@@ -279,7 +290,7 @@ def execute(sc, sched):
     elif sim.thread_errors:
       common.thread_error_violations(sim, res)
     else:
-      judge(sc, log, res)
+      judge(dict(sc, cap=capbox[0]), log, res)
   if boundary:
     res.nontrivial.append(hash((kernel._stable(target), cap, tuple(sorted(boundary)))))
   if res.outcome == 'violation' or sched.get('seed', 0) % 499 == 0:
@@ -338,6 +349,10 @@ def judge(sc, log, res):
     if tk1 is not None and exc is None:
       if tk1 < len(after):
         res.violate('token-lost', {'op': op}, head + ': fewer wake-up tokens than pending events (a consumer would sleep on a non-empty queue)')
+        return
+      if target == 'active-object' and tk1 != len(after):
+        # an object that was never started: nobody took a token, so there is exactly one per pending event
+        res.violate('token-mismatch', {'op': op, 'target': 'active-object'}, head + ': an idle, never-started active object must hold one wake-up token per pending event')
         return
       if sc.get('consumer_only') and tk1 != len(after):
         res.violate('token-mismatch', {'op': op}, head + ': one token per pending event expected when events are only taken through the consumer protocol')
